@@ -90,6 +90,7 @@ type Engine struct {
 	volatile    map[*Cell]bool
 	opaqueStore, opaqueDerefUsed bool
 	freshMergeDepth int
+	enclosing   map[string]Val // parameters of enclosing functions that a closure under contract does not capture
 	topFrame    *frame // frame of the function under contract (locals by name for effect conditions)
 	mergedCell  map[string]*Cell   // mergedptr name -> the stand-in object its dereferences read
 	mergedOf    map[*Cell][]*Cell  // candidate object -> stand-in objects that may alias it
